@@ -1,6 +1,6 @@
 SPECIFICATION Spec
 CONSTANTS
-  MaxCalls = 8
+  MaxCalls = 7
   Addrs = {0, 3, 12}
   Dev_AddrInId = FALSE
   KeepHist = TRUE
